@@ -188,8 +188,19 @@ def make_generic(rng, i):
         src = "#[derive(Educe)]\n%s%spub %s G%d%s%s%s;" % (ta, "".join(tattr), kw, i, g, body, where)
     else:
         src = "#[derive(Educe)]\n%s%spub %s G%d%s%s%s%s" % (ta, "".join(tattr), kw, i, g, where, body, tail)
+    renamed = False
+    if rng.random() < 0.3:
+        # parameters called like the generic parameters the generated code introduces itself (the hasher `H` of `fn hash`,
+        # `V` / `M` of the Debug helper struct): a type, a const and a second type parameter
+        import re as _re
+        names = rng.sample(["H", "V", "M", "H_", "F"], 3)
+        if rng.random() < 0.5 and "H" not in names[:2]:
+            names[2] = "H"                     # the const parameter
+        for old_name, new_name in zip(["T", "U", "N"], names):
+            src = _re.sub(r"(?<![A-Za-z0-9_:#'])%s(?![A-Za-z0-9_])" % old_name, new_name, src)
+        renamed = True
     meta.update({"traits": sorted(traits), "lifetimes": int("'a" in used), "type_params": len([p for p in tps if p in used]), "consts": int("N" in used),
-                 "where": bool(where), "raw_ident": "r#" in src, "repr": "#[repr" in src})
+                 "where": bool(where), "raw_ident": "r#" in src, "repr": "#[repr" in src, "params_named_like_generated_generics": renamed})
     return src, meta
 
 
